@@ -28,6 +28,10 @@ from . import core, vt
 POLICIES = ("sub", "sub1", "none")
 QUICK = ("d1", "d2core")
 THOROUGH = ("d1", "d2core", "d2", "d3")
+# Horizon dispose of every run.  The longest conforming behaviour of a depth-3 pipeline is repeat:2 o repeat:2 o repeat:2 over a
+# 40-tick timeline (ends at 200 + 8*40 = 520); periodic operators (sample, *_with_time) tick until the horizon, so a nearer horizon
+# than vt.HORIZON keeps never-ending cases cheap without cutting any terminating one short.
+HORIZON = 600
 
 
 def alphabet(seed: int):
@@ -118,7 +122,7 @@ def run(base, seed: int, **dev):
     alpha, un = alphabet(seed)
     tl = cat.TLS(*alpha)[tln]
     dev = {k: (tuple(v) if isinstance(v, list) else v) for k, v in dev.items() if v is not None}
-    R = cat.run_case(list(st), kind, tl, inner_policy=pol, alphabet=alpha, unrename=un, **dev)
+    R = cat.run_case(list(st), kind, tl, inner_policy=pol, alphabet=alpha, unrename=un, horizon=HORIZON, **dev)
     drain(R)
     return R
 
